@@ -92,6 +92,11 @@ func runC04(p *eng.Prog, r *eng.Report, tier string) {
 	for _, f := range neg {
 		inNeg[f] = true
 	}
+	// an error REPLY of the bind step is an error reported by that step: the
+	// bind rules (success only for a result reply that names an address, the
+	// receiver fails the step after the callback's error) are part of "no step's
+	// error is swallowed"
+	c12Bind(c)
 	// C04.7 typed-nil errors: a pointer that may be nil returned as an error is
 	// a non-nil error whose Error() dereferences nil
 	nt := 0
